@@ -4,7 +4,7 @@ import HcipyVerif.Model.Coronagraph
 /-! Line-protocol front end of the C09 model.
 
 * `count ORDER` → `ok modes=M coeffs=C exps=j:k,j:k,…`
-* `setup ORDER [a] [x] [y]` → `ok n=N modes=M rank=R` (stores the Gram–Schmidt basis)
+* `setup ORDER [a] [x] [y]` → `ok n=N modes=M rank=R slack=Q` (stores the Gram–Schmidt basis)
 * `apply [re] [im]` → `ok [re'] [im']` (perfect coronagraph on both real components)
 * `lyot Fre Fim Bre Bim [mre] [mim] SRE SIM [Ere] [Eim]` (matrices `[row];[row]`, stop `-` `-` for none)
 * `occulted Fre Fim Bre Bim [mre] [mim] [Ere] [Eim]`
@@ -19,24 +19,24 @@ structure St where
 
 def ofList (l : List Rat) (n : Nat) : Vec Rat n :=
   let a := l.toArray
-  fun i => a.getD i.1 0
+  Vector.ofFn fun i => a.getD i.1 0
 
-def toList {K} {n : Nat} (v : Vec K n) : List K := (List.finRange n).map v
+def toList {K} {n : Nat} (v : Vec K n) : List K := v.toList
 
 def cvec (re im : List Rat) (n : Nat) : Vec CRat n :=
   let a := re.toArray
   let b := im.toArray
-  fun i => ⟨a.getD i.1 0, b.getD i.1 0⟩
+  Vector.ofFn fun i => ⟨a.getD i.1 0, b.getD i.1 0⟩
 
 def showC {n : Nat} (v : Vec CRat n) : String :=
   showRatList ((toList v).map (·.re)) ++ " " ++ showRatList ((toList v).map (·.im))
 
-def isZero {n : Nat} (v : Vec Rat n) : Bool := (List.finRange n).all fun i => v i == 0
+def isZero {n : Nat} (v : Vec Rat n) : Bool := v.toList.all fun q => q == 0
 
 /-- a matrix with `m` rows of length `n` from two lists of rows -/
-def cmat (re im : List (List Rat)) (m n : Nat) : Fin m → Vec CRat n :=
-  let rows : Array (Vec CRat n) := ((re.zip im).map fun (r, i) => memo (cvec r i n)).toArray
-  fun k => rows.getD k.1 (fun _ => 0)
+def cmat (re im : List (List Rat)) (m n : Nat) : Vector (Vec CRat n) m :=
+  let rows : Array (Vec CRat n) := ((re.zip im).map fun (r, i) => cvec r i n).toArray
+  Vector.ofFn fun k => rows.getD k.1 (Vector.replicate n 0)
 
 def rect (ll : List (List Rat)) (n : Nat) : Bool := ll.all (·.length == n)
 
@@ -81,17 +81,20 @@ def step (st : St) : List String → St × String
     | some o, some a, some x, some y =>
       let n := a.length
       if x.length != n || y.length != n then (st, "bad-op") else
-      let ms := modes (memo (ofList a n)) (memo (ofList x n)) (memo (ofList y n)) o
+      let ms := modes (ofList a n) (ofList x n) (ofList y n) o
       let b := gs ms
       let rank := (b.filter fun u => !isZero u).length
-      ({ n := n, basis := b }, s!"ok n={n} modes={ms.length} rank={rank}")
+      -- conditioning witness: least ⟨r,r⟩/⟨f,f⟩ over the independent modes (1 if there is none)
+      let slack := (ms.zip b).foldl (fun acc (f, r) =>
+        if isZero r then acc else min acc (dot r r / dot f f)) (1 : Rat)
+      ({ n := n, basis := b }, s!"ok n={n} modes={ms.length} rank={rank} slack={showRat slack}")
     | _, _, _, _ => (st, "bad-op")
   | ["apply", re, im] =>
     match parseRatList? re, parseRatList? im with
     | some re, some im =>
       if re.length != st.n || im.length != st.n then (st, "bad-op") else
-      let r := residual st.basis (memo (ofList re st.n))
-      let i := residual st.basis (memo (ofList im st.n))
+      let r := residual st.basis (ofList re st.n)
+      let i := residual st.basis (ofList im st.n)
       (st, s!"ok {showRatList (toList r)} {showRatList (toList i)} power={showRat (power r + power i)}")
     | _, _ => (st, "bad-op")
   | ["lyot", fre, fim, bre, bim, mre, mim, sre, sim, ere, eim] =>
